@@ -211,11 +211,12 @@ func ruleText(rs []Rule) string {
 		if strings.HasPrefix(r.Tpl, "N:") {
 			fmt.Fprintf(&sb, "  %s\n", benignSnippets[r.Tpl[2:]])
 		}
+		// the stop tag is set before anything in the rule can fail
+		fmt.Fprintf(&sb, "  if doTag(\"%s\") { stag.StopTag = true }\n", n)
 		if strings.HasPrefix(r.Tpl, "F:") {
 			// C09: a fault of the given class and position inside this rule, fired when the call says so
 			fmt.Fprintf(&sb, "  if doFault(\"%s\") {\n    prefail(\"%s\")\n    %s\n  }\n", n, n, faultSnippets[r.Tpl[2:]])
 		}
-		fmt.Fprintf(&sb, "  if doTag(\"%s\") { stag.StopTag = true }\n", n)
 		if snip, ok := faultSnippets[r.FK]; ok {
 			// the rule fails through a real fault of this class instead of a panicking function
 			fmt.Fprintf(&sb, "  if doFail(\"%s\") {\n    prefail(\"%s\")\n    %s\n  }\n", n, n, snip)
